@@ -276,7 +276,8 @@ Elab(sx, env) ==
 (***************************************************************************)
 RealOnlyLogics == {"QF_LRA", "LRA", "QF_RDL", "QF_UFLRA", "UFLRA", "QF_NRA", "NRA", "QF_UFNRA", "UFNRA", "QF_LRAt"}
 
-InitScript == [envs |-> <<EmptyEnv>>, cmds |-> <<>>, illegal |-> <<>>]
+InitScript == [envs |-> <<EmptyEnv>>, cmds |-> <<>>, illegal |-> <<>>, alev |-> <<<<>>>>]
+\* alev: the asserted terms, one sequence per assertion level (parallel to envs)
 CurEnv(st) == st.envs[Len(st.envs)]
 SetEnv(st, e) == [st EXCEPT !.envs[Len(st.envs)] = e]
 Note(st, name, terms) == [st EXCEPT !.cmds = Append(@, [name |-> name, terms |-> terms])]
@@ -337,17 +338,21 @@ RunCmd(st, sx) ==
       [] c = "define-sort" /\ n = 4 /\ a[2].k = "sym" /\ a[3].k = "list" ->
             SetEnv(Note(st, c, <<>>), [env EXCEPT !.sdefs = MapPut(env.sdefs, a[2].s,
                         [ps |-> [j \in 1..Len(a[3].l) |-> a[3].l[j].s], body |-> a[4]])])
-      [] c = "assert" /\ n = 2 -> TermCmd(st, c, <<a[2]>>, TRUE)
+      [] c = "assert" /\ n = 2 ->
+            LET st1 == TermCmd(st, c, <<a[2]>>, TRUE)
+            IN  [st1 EXCEPT !.alev[Len(st1.alev)] = Append(@, st1.cmds[Len(st1.cmds)].terms[1])]
       [] c = "assert-soft" /\ n >= 2 -> TermCmd(st, c, <<a[2]>>, TRUE)
       [] c \in {"maximize", "minimize"} /\ n >= 2 -> TermCmd(st, c, <<a[2]>>, FALSE)
       [] c = "check-sat-assuming" /\ n = 2 /\ a[2].k = "list" -> TermCmd(st, c, a[2].l, TRUE)
       [] c = "get-value" /\ n = 2 /\ a[2].k = "list" -> TermCmd(st, c, a[2].l, FALSE)
       [] c = "push" -> LET k == IF n >= 2 /\ a[2].k = "num" THEN a[2].n[1] ELSE 1
-                       IN  Note([st EXCEPT !.envs = CopyTop(st.envs, k)], c, <<>>)
+                       IN  Note([st EXCEPT !.envs = CopyTop(st.envs, k), !.alev = st.alev \o [j \in 1..k |-> <<>>]], c, <<>>)
       [] c = "pop" -> LET k == IF n >= 2 /\ a[2].k = "num" THEN a[2].n[1] ELSE 1
                       IN  IF k >= Len(st.envs) THEN Bad(Note(st, c, <<>>), "pop below the first level")
-                          ELSE Note([st EXCEPT !.envs = SubSeq(st.envs, 1, Len(st.envs) - k)], c, <<>>)
-      [] c = "reset-assertions" -> Note([st EXCEPT !.envs = <<[EmptyEnv EXCEPT !.numReal = st.envs[1].numReal]>>], c, <<>>)
+                          ELSE Note([st EXCEPT !.envs = SubSeq(st.envs, 1, Len(st.envs) - k),
+                                               !.alev = SubSeq(st.alev, 1, Len(st.alev) - k)], c, <<>>)
+      [] c = "reset-assertions" -> Note([st EXCEPT !.envs = <<[EmptyEnv EXCEPT !.numReal = st.envs[1].numReal]>>,
+                                                   !.alev = <<<<>>>>], c, <<>>)
       [] c \in {"check-sat", "exit", "set-option", "set-info", "get-model", "get-info", "get-option", "get-assertions",
                 "get-unsat-core", "get-proof", "echo", "get-objectives", "check-allsat", "reset", "get-assignment",
                 "get-unsat-assumptions", "minmax", "maxmin"} -> Note(st, c, <<>>)
@@ -356,4 +361,7 @@ RunCmd(st, sx) ==
 RECURSIVE RunScript(_, _)
 RunScript(sxs, st) == IF sxs = <<>> THEN st ELSE RunScript(Tail(sxs), RunCmd(st, Head(sxs)))
 
+RECURSIVE FlattenSeqs(_)
+FlattenSeqs(ss) == IF ss = <<>> THEN <<>> ELSE Head(ss) \o FlattenSeqs(Tail(ss))
+LiveAsserted(st) == FlattenSeqs(st.alev)
 =============================================================================
